@@ -234,6 +234,17 @@ def run(chk, facts, tier):
             if ok and not (res and res[0].c and mentions(res[0].c[0], 'enabled_') and all(is_name(ret_value(r), 'result') for r in fn.returns())):
                 ok, why = False, 'the event must be permitted by the enabled_ state sampled before counting'
             chk.instance('start-stop-count', fn, name, ok, why, key=name)
+    # the controls take effect whenever they are called: the new count replaces the old one, advertising is enabled, on every path
+    for fn in variants(facts, IMPL + 'start_advertising', chk):
+        st = [(target_name(tgt), op, val, s) for tgt, op, val, s in stores(fn.body) if target_name(tgt) in ('count_', 'enabled_')]
+        cnt = [x for x in st if x[0] == 'count_']
+        en = [x for x in st if x[0] == 'enabled_']
+        want_cnt = (lambda v: is_name(v, fn.params[0]['n'])) if fn.params else (lambda v: cval(v) == 0)
+        def always(s):
+            return not fn.guards(s) and not fn.paths_avoiding([fn.entry], fn.exit, {fn.block_of(s)})
+        ok = len(cnt) == 1 and cnt[0][1] == '=' and want_cnt(cnt[0][2]) and always(cnt[0][3]) and len(en) == 1 and cval(en[0][2]) == 1 and always(en[0][3])
+        chk.instance('start-stop-count', fn, 'start_advertising(%s): count_ = %s and enabled_ = true on every path' % (', '.join(p['n'] for p in fn.params), 'count' if fn.params else '0 (unlimited)'), ok,
+                     '' if ok else 'a start_advertising() call does not (always) replace the event count / enable advertising: a limit requested while advertising is running is ignored and the number of events is not bounded by it', key='start/%d' % len(fn.params))
     for name, fields in (('stop_advertising', ('enabled_',)), ('end_of_advertising_events', ('enabled_', 'started_'))):
         for fn in variants(facts, IMPL + name, chk):
             st = {target_name(tgt): cval(val) for tgt, op, val, s in stores(fn.body) if op == '='}
